@@ -29,7 +29,9 @@ RULE = ("encoder: every string over {00,01,FF} up to length L (L=9 quick, 13 tho
         "{00,01,02,FF} up to length M (8 quick, 11 thorough; exhaustive), adversarial inputs around the 0x3000 cap, "
         "random inputs; header peek: zero-coded datagrams from the template generator. distinct_nontrivial = "
         "distinct inputs containing at least one zero byte"
-        ". Rounds 6-7: the result of an earlier expand call must be unchanged after later calls; compress / expand from four threads at once against their single-threaded results")
+        ". Rounds 6-7: the result of an earlier expand call must be unchanged after later calls; compress / expand from four threads at once against their single-threaded results"
+        ". Round 8: the encoder given a bytearray (what serialize() passes) - the result must survive the caller reusing that buffer and the argument must be "
+        "unchanged; peak allocation (tracemalloc) of one expand call on decompression bombs up to 65000 bytes must stay under 8x(cap+256) bytes whether it refuses or not")
 ASSUMPTIONS = [
     "reference semantics: 00 N = N zeros, each extra 00 before the count adds 256, an unterminated run of k zero "
     "bytes at the end is 1+256(k-1) zeros (matches the viewer's decoder)",
@@ -40,6 +42,7 @@ MUST_REACH = {
     "enc_cases": 1, "dec_cases": 1, "dec_refused": 1, "dec_wrap_inputs": 1, "dec_trailing_zero_inputs": 1,
     "enc_runs_over_255": 1, "header_peeks": 1, "dec_between_cap": 1, "enc_repeat_after_mutation": 100, "enc_at_size_boundary": 12,
     "dec_earlier_results_still_intact": 1000, "coder_calls_from_concurrent_threads": 5000,
+    "enc_buffer_arguments": 100, "enc_buffer_arguments_without_zero": 40, "dec_allocation_measured_on_refusal": 6,
 }
 
 
@@ -99,6 +102,80 @@ def check_encoder(ctx, s: bytes, tag):
 
 
 _PREV_DEC = []
+ALLOC_BOUND = 8 * (CAP + MAX_STEP)
+
+
+def check_encoder_buffer_argument(ctx, s: bytes, rng):
+    """serialize() hands the encoder its body writer's bytearray. What the encoder returns is then the caller's to keep: it
+    must not be the argument itself, must not change when the caller reuses its buffer, and the argument must come back as it
+    went in."""
+    ctx.ev()
+    buf = bytearray(s)
+    try:
+        res = UDPMessageSerializer.zero_code_compress(buf)
+    except Exception as e:
+        ctx.violation("encoder-raises", "zero_code_compress raised on a bytearray", {"input": s[:200], "exc": repr(e), "kind": "encbuf"})
+        return
+    ctx.count("enc_buffer_arguments")
+    if b"\x00" not in s:
+        ctx.count("enc_buffer_arguments_without_zero")
+    at_call = bytes(res)
+    if bytes(buf) != s:
+        ctx.violation("encoder-changes-argument", "zero_code_compress changed the buffer it was given",
+                      {"input": s[:200], "after": bytes(buf)[:200], "kind": "encbuf"})
+        return
+    # the caller reuses its scratch buffer for the next body
+    how = rng.choice(["overwrite", "clear", "extend", "poke"])
+    if how == "overwrite":
+        buf[:] = bytes(len(buf) + 3)
+    elif how == "clear":
+        del buf[:]
+    elif how == "extend":
+        buf += b"\x00\x00\x00"
+    elif buf:
+        buf[rng.randrange(len(buf))] = 0
+    else:
+        buf += b"\x00"
+    if bytes(res) != at_call:
+        ctx.violation("encoder-result-aliases-argument", "the encoding handed out earlier changed when the caller reused the buffer "
+                      "it had passed in", {"input": s[:200], "reuse": how, "at_call": at_call[:200], "now": bytes(res)[:200], "kind": "encbuf"})
+        return
+    if at_call != bytes(UDPMessageSerializer.zero_code_compress(s)):
+        ctx.violation("encoder-depends-on-argument-type", "a bytearray and the same bytes encode differently",
+                      {"input": s[:200], "kind": "encbuf"})
+
+
+def check_decoder_allocation(ctx, d: bytes, tag):
+    """'refuses ... instead of allocating without bound': what one call may allocate is bounded by the cap, not by the input.
+    Observed with tracemalloc around the call (peak over the call, the input itself already allocated)."""
+    import tracemalloc
+    ctx.ev()
+    started_here = not tracemalloc.is_tracing()
+    if started_here:
+        tracemalloc.start()
+    try:
+        tracemalloc.reset_peak()
+        base = tracemalloc.get_traced_memory()[0]
+        refused = False
+        try:
+            res = UDPMessageDeserializer.zero_code_expand(d)
+        except ValueError:
+            refused = True
+            res = None
+        peak = tracemalloc.get_traced_memory()[1] - base
+    finally:
+        if started_here:
+            tracemalloc.stop()
+    del res
+    ctx.count("dec_allocation_measured")
+    if refused:
+        ctx.count("dec_allocation_measured_on_refusal")
+    ctx.cover("dec_peak_alloc_kb", min(peak // 4096 * 4, 64))
+    if peak > ALLOC_BOUND:
+        ctx.violation("decoder-allocates-beyond-cap", "one zero_code_expand() call allocated far more than its size cap allows "
+                      "(%s)" % ("before refusing" if refused else "and returned"),
+                      {"input_len": len(d), "input_head": d[:32], "peak_bytes": peak, "bound": ALLOC_BOUND, "refused": refused,
+                       "tag": tag, "kind": "decalloc", "input": d if len(d) <= 70000 else None})
 
 
 def threads_phase(ctx, rng):
@@ -296,6 +373,15 @@ def run(ctx):
     for i, d in enumerate(adv):
         if ctx.mine(i):
             check_decoder(ctx, d, "adv")
+    bombs = [b"\x00" * 60000, b"\x00\xff" * 30000, b"\x01" * 100 + b"\x00" * 9000, b"\x00\xff" * 50 + b"\x00" * 1500,
+             b"\x00\xff" * 49 + b"\x07" * 65000, b"\x07" * 65000, b"\x00\xff" * 47, b"\x00" * 48]
+    for _ in range(ctx.pick(6, 60)):
+        head = bytes(rng.choice([0, 0, 0xff, 1, rng.getrandbits(8)]) for _ in range(rng.randint(0, 300)))
+        bombs.append(head + rng.choice([b"\x00", b"\x00\xff", b"\x00\x00\x01"]) * rng.randint(50, 20000))
+    for i, d in enumerate(bombs):
+        if ctx.mine(i):
+            check_decoder_allocation(ctx, d, "bomb")
+            check_decoder(ctx, d, "bomb")
 
     # 5. random strings
     n_rand = ctx.pick(300, 20000)
@@ -306,6 +392,9 @@ def run(ctx):
         pz = rng.choice([0.05, 0.5, 0.9, 0.99])
         s = bytes(0 if rng.random() < pz else rng.choice([1, 0xff, rng.getrandbits(8) or 1]) for _ in range(ln))
         check_encoder(ctx, s, "rand")
+        if rng.random() < 0.5:
+            zf = bytes(rng.choice([1, 0xff, rng.getrandbits(8) or 3]) for _ in range(rng.choice([0, 1, 4, rng.randint(0, 300)])))
+            check_encoder_buffer_argument(ctx, rng.choice([s, zf, zf, s[:rng.randint(0, 40)]]), rng)
         d = bytes(rng.choice([0, 0, 1, 2, 0xff, rng.getrandbits(8)]) for _ in range(rng.randint(0, 400)))
         check_decoder(ctx, d, "rand")
 
@@ -333,6 +422,11 @@ def replay(ctx, w):
     kind = w.get("kind")
     if kind == "enc":
         check_encoder(ctx, w["input"], "replay")
+    elif kind == "encbuf":
+        for _ in range(8):
+            check_encoder_buffer_argument(ctx, w["input"], ctx.rng)
+    elif kind == "decalloc" and w.get("input") is not None:
+        check_decoder_allocation(ctx, w["input"], "replay")
     elif kind == "dec" and "input" in w:
         check_decoder(ctx, w["input"], "replay")
     else:
